@@ -246,7 +246,9 @@ func (e *Enc) assertOb(name string, goal Term, desc string, pos token.Pos) {
 		p = e.W.Fset.Position(pos)
 	}
 	e.obligs++
-	term := strings.HasPrefix(name, "post#") || strings.HasPrefix(name, "loop") || strings.HasPrefix(name, "frame:")
+	term := strings.HasPrefix(name, "post#") || strings.HasPrefix(name, "loop") || strings.HasPrefix(name, "frame:") ||
+		strings.HasPrefix(name, "calls-unmatched:") || strings.HasPrefix(name, "return-missing#") || strings.HasPrefix(name, "anchor-missing@") ||
+		goal.S == "false" // an unprovable marker must not make later obligations vacuous
 	e.items = append(e.items, Item{Kind: itAssert, Text: f.S, Name: e.fnLabel + "/" + name, Desc: desc, Pos: p, Quant: hasQuant(f.S), Term: term})
 }
 
